@@ -490,6 +490,8 @@ func corr(e *env, seed uint64, n int) {
 	e.entryByteCases(r, n/4, next)
 	sinfDecodeCases(r, n/2, next)
 	thirdPartyStruct(e, next)
+	// --- H: DecryptFragment on multi-track / multi-trun fragments assembled third-party style (multi.go)
+	e.multiCases(r, n/2, next)
 	out.Flush()
 }
 
